@@ -336,6 +336,7 @@ func Exec(t *testing.T, plan *Plan, orc Oracle) *World {
 // that is unwound by testing.FailNow (the race lane: the testing package fails a bubble during
 // which the race detector fired) still holds the world.
 func execInto(t *testing.T, plan *Plan, orc Oracle, dst **World) {
+	defer noteWorld(plan)()
 	var w *World
 	oldLocal := time.Local
 	defer func() { time.Local = oldLocal }()
@@ -462,6 +463,12 @@ func (w *World) applyActor(op *Op) {
 				fs.Remove(e.PemPath())
 			}
 			delete(w.Ents, op.Ent)
+			for i, id := range w.Order {
+				if id == op.Ent {
+					w.Order = append(w.Order[:i:i], w.Order[i+1:]...)
+					break
+				}
+			}
 		}
 	case "put-prof":
 		p := op.Prof.Clone()
